@@ -807,41 +807,197 @@ func (h *harness) calcSweep() {
 			for nMax = 0; r.LoopS(nMax) < 4*cycle*ts && nMax < 60; nMax++ {
 			}
 			for n := int64(0); n <= nMax; n++ {
-				now := availMS(r, cfg.StartS, n) + int64(rng.Intn(3000))
-				segID := cfg.EffSnr() + n
-				segPart := fmt.Sprintf("%s/%d.m4s", vr.ID, segID)
-				url := fmt.Sprintf("/livesim2/%ssynthetic/%s", cfg.URLPrefix(), segPart)
-				cfgc := cfg
-				dom := domainOf(r, cfg, codes, n)
-				in := c14in{Kind: "calc", Domain: dom, Rep: vr.ID, Cfg: &cfgc, Codes: codes, N: n, SegID: segID, NowMS: now, URL: url, Segs: segs, Timescale: ts, LoopMS: loopMS}
-				code, errS, pan := callCalc(in)
-				id := fmt.Sprint(h.id())
-				h.nEval++
-				h.c.Res.Inputs[id] = in
-				// substring filters are what the code implements; the oracle uses them as the code documents them
-				exp := expectedCodeSub(r.LoopS, ts, codes, vr.ID, n)
-				hit := "normal"
-				if exp != 0 {
-					hit = "hit"
+				h.calcOne(fmt.Sprintf("syn%d", t), name, r, segs, loopMS, cfg, codes, n, availMS(r, cfg.StartS, n)+int64(rng.Intn(3000)))
+			}
+		}
+	}
+}
+
+// calcOne: one call of calcStatusCode (hook) on a synthetic table, oracle and correspondence case.
+func (h *harness) calcOne(key, name string, r *lib.TLRep, segs [][2]uint64, loopMS int64, cfg lib.TLCfg, codes []codeSpec, n, now int64) {
+	c := h.c
+	vr := r.VodRep
+	ts := vr.Timescale
+	segID := cfg.EffSnr() + n
+	segPart := fmt.Sprintf("%s/%d.m4s", vr.ID, segID)
+	url := fmt.Sprintf("/livesim2/%ssynthetic/%s", cfg.URLPrefix(), segPart)
+	cfgc := cfg
+	dom := domainOf(r, cfg, codes, n)
+	in := c14in{Kind: "calc", Domain: dom, Rep: vr.ID, Cfg: &cfgc, Codes: codes, N: n, SegID: segID, NowMS: now, URL: url, Segs: segs, Timescale: ts, LoopMS: loopMS}
+	code, errS, pan := callCalc(in)
+	id := fmt.Sprint(h.id())
+	h.nEval++
+	h.c.Res.Inputs[id] = in
+	// substring filters are what the code implements; the oracle uses them as the code documents them
+	exp := expectedCodeSub(r.LoopS, ts, codes, vr.ID, n)
+	hit := "normal"
+	if exp != 0 {
+		hit = "hit"
+	}
+	c.Count(fmt.Sprintf("calc/N=%d/%s/%s", len(vr.Segs), dom, hit))
+	obs := int64(code)
+	switch {
+	case pan != "":
+		obs = 0
+		c.Fail(id, panicKey(pan), fmt.Sprintf("calcStatusCode panics for segment %d: %s", n, pan), in)
+	case errS != "":
+		obs = -1
+		c.Fail(id, "other-status", fmt.Sprintf("calcStatusCode fails for available segment %d: %s", n, errS), in)
+	case int64(code) != exp && exp != 0:
+		c.Fail(id, "hit-missed", fmt.Sprintf("calcStatusCode gives %d for segment %d, the schedule says %d", code, n, exp), in)
+	case int64(code) != exp:
+		c.Fail(id, "hit-unexpected", fmt.Sprintf("calcStatusCode gives %d for segment %d, the schedule says %d", code, n, exp), in)
+	default:
+		h.dist[fmt.Sprintf("%s/%s/%d/%s", key, cfg.URLPrefix(), n, hit)] = true
+	}
+	h.terms = append(h.terms, fmt.Sprintf("CCalc %s %s %s %d %s %s %s ByNumber %d %d %s %s",
+		id, lib.Cbool(h.fx), name, loopMS, cfg.CoqCfg(), codesCoq(codes), lib.CoqString(vr.ID), segID, now, lib.Zs(obs), lib.CoqString(modelPanic(pan))))
+}
+
+// wrapSweep: assets whose loop is not a whole number of seconds (29.97 Hz: 2.002 s segments, 8.008 s
+// loop) at segment numbers after many loop wraps, with cycles that divide 1001 s, so that cycle starts
+// fall exactly on segment starts (every 500 segments): L2 on synthetic NTSC tables (1-5 segments per
+// loop, three timescales), L1 on the bundled 29.97 Hz WAVE asset (audio, some video).
+func (h *harness) wrapSweep(assets []*lib.TLAsset) {
+	c := h.c
+	cycles := []int64{7, 11, 13, 77, 91, 143, 1001}
+	type layout struct {
+		ts  int64
+		dur []int64 // ticks
+	}
+	layouts := []layout{
+		{30000, []int64{60060, 60060, 60060, 60060}},
+		{30000, []int64{60060}},
+		{60000, []int64{120120, 240240, 120120}},
+		{90000, []int64{180180, 180180, 360360, 180180, 180180}},
+		{24000, []int64{48048, 48048}},
+	}
+	for li, l := range layouts {
+		vr := &lib.VodRep{ID: "V1", Timescale: l.ts}
+		var segs [][2]uint64
+		pos := int64(0)
+		for i, d := range l.dur {
+			segs = append(segs, [2]uint64{uint64(pos), uint64(pos + d)})
+			vr.Segs = append(vr.Segs, lib.VodSeg{Start: pos, End: pos + d, Nr: int64(i + 1)})
+			pos += d
+		}
+		if pos*1000%l.ts != 0 {
+			continue
+		}
+		loopMS := pos * 1000 / l.ts
+		r := &lib.TLRep{VodRep: vr, Kind: "video", Ext: ".m4s"}
+		name := h.repName(fmt.Sprintf("ntsc%d", li), vr)
+		for ci, cycle := range cycles {
+			if !c.Thorough() && (li+ci)%2 == 1 {
+				continue
+			}
+			cfg := lib.TLCfg{Snr: -1, Tsbd: -1, Mode: "number"}
+			if (li+ci)%5 == 0 {
+				cfg.StartS, cfg.Snr = 1001, 3
+			}
+			// segment numbers around the instants k * 1001 s (where every such cycle starts on a segment start)
+			var around []int64
+			for _, k := range []int64{1, 2, 7} {
+				T := k * 1001 * l.ts
+				var n int64
+				for n = (T / pos) * int64(len(l.dur)); r.LoopS(n) < T; n++ {
 				}
-				c.Count(fmt.Sprintf("calc/N=%d/%s/%s", N, dom, hit))
-				obs := int64(code)
-				switch {
-				case pan != "":
-					obs = 0
-					c.Fail(id, panicKey(pan), fmt.Sprintf("calcStatusCode panics for segment %d: %s", n, pan), in)
-				case errS != "":
-					obs = -1
-					c.Fail(id, "other-status", fmt.Sprintf("calcStatusCode fails for available segment %d: %s", n, errS), in)
-				case int64(code) != exp && exp != 0:
-					c.Fail(id, "hit-missed", fmt.Sprintf("calcStatusCode gives %d for segment %d, the schedule says %d", code, n, exp), in)
-				case int64(code) != exp:
-					c.Fail(id, "hit-unexpected", fmt.Sprintf("calcStatusCode gives %d for segment %d, the schedule says %d", code, n, exp), in)
-				default:
-					h.dist[fmt.Sprintf("syn%d/%s/%d/%s", t, cfg.URLPrefix(), n, hit)] = true
+				for d := int64(-3); d <= 3; d++ {
+					around = append(around, n+d)
 				}
-				h.terms = append(h.terms, fmt.Sprintf("CCalc %s %s %s %d %s %s %s ByNumber %d %d %s %s",
-					id, lib.Cbool(h.fx), name, loopMS, cfg.CoqCfg(), codesCoq(codes), lib.CoqString(vr.ID), segID, now, lib.Zs(obs), lib.CoqString(modelPanic(pan))))
+			}
+			for _, rsq := range []int64{0, 1} {
+				codes := []codeSpec{{Cycle: cycle, Rsq: rsq, Code: codeValues[int(cycle+rsq)%len(codeValues)]}}
+				cfg.Extra = codesURL(codes)
+				for _, n := range around {
+					h.calcOne(fmt.Sprintf("ntsc%d", li), name, r, segs, loopMS, cfg, codes, n, availMS(r, cfg.StartS, n)+211)
+				}
+			}
+		}
+	}
+	// L1: the bundled 29.97 Hz asset
+	for _, a := range assets {
+		if !strings.Contains(a.Path, "29.97") {
+			continue
+		}
+		ref := a.Ref()
+		var audio *lib.TLRep
+		for _, r := range a.Reps {
+			if r.Kind == "audio" {
+				audio = r
+			}
+		}
+		if audio == nil {
+			audio = ref
+		}
+		for ci, cycle := range cycles {
+			for _, k := range []int64{1, 3} {
+				T := k * 1001 * ref.Timescale
+				var n0 int64
+				for n0 = (T / ref.Duration()) * int64(len(ref.Segs)); ref.LoopS(n0) < T; n0++ {
+				}
+				rsq := int64(ci % 2)
+				codes := []codeSpec{{Cycle: cycle, Rsq: rsq, Code: 404}}
+				cfg := lib.TLCfg{Snr: -1, Tsbd: -1, Mode: []string{"number", "tlnr", "tlt"}[ci%3]}
+				for d := int64(-2); d <= 3; d++ {
+					h.statusRequest(a, audio, cfg, codes, n0+d, 1)
+				}
+				if ci%3 == 0 || c.Thorough() {
+					h.statusRequest(a, ref, cfg, codes, n0+rsq, 1)
+					h.statusRequest(a, ref, cfg, codes, n0+rsq+1, 1)
+				}
+			}
+		}
+	}
+}
+
+// listSweep: pattern LISTS whose entries differ in exactly one field (representation filter, code,
+// relative number, cycle), in both orders, and exact duplicates. The list means: the first pattern in
+// order whose filter matches and whose relative number is hit gives the code (scheduleCode).
+func (h *harness) listSweep(assets []*lib.TLAsset) {
+	for _, a := range assets {
+		if a.Path != "testpic_2s" && a.Path != "testpic_8s" && !h.c.Thorough() {
+			continue
+		}
+		if strings.HasPrefix(a.Path, "WAVE") {
+			continue
+		}
+		ref := a.Ref()
+		var audio *lib.TLRep
+		for _, r := range a.Reps {
+			if r.Kind == "audio" {
+				audio = r
+			}
+		}
+		if audio == nil {
+			continue
+		}
+		for _, cycle := range []int64{8, 30} {
+			base := codeSpec{Cycle: cycle, Rsq: 0, Code: 404, Rep: ref.ID}
+			variants := []codeSpec{
+				{Cycle: cycle, Rsq: 0, Code: 404, Rep: audio.ID}, // only the representation differs
+				{Cycle: cycle, Rsq: 0, Code: 404, Rep: "*"},
+				{Cycle: cycle, Rsq: 0, Code: 404},
+				{Cycle: cycle, Rsq: 0, Code: 503, Rep: ref.ID},      // only the code differs
+				{Cycle: cycle, Rsq: 1, Code: 404, Rep: ref.ID},      // only the relative number differs
+				{Cycle: cycle + 16, Rsq: 0, Code: 404, Rep: ref.ID}, // only the cycle differs
+				base, // exact duplicate
+			}
+			var nMax int64
+			for nMax = 0; ref.LoopS(nMax) < 2*(cycle+16)*ref.Timescale; nMax++ {
+			}
+			for vi, v := range variants {
+				lists := [][]codeSpec{{base, v}, {v, base}}
+				if vi == len(variants)-1 {
+					lists = [][]codeSpec{{base, v}, {base, v, {Cycle: cycle, Rsq: 1, Code: 410, Rep: audio.ID}, {Cycle: cycle, Rsq: 1, Code: 410, Rep: audio.ID}}}
+				}
+				for _, codes := range lists {
+					for _, r := range []*lib.TLRep{ref, audio} {
+						for n := int64(0); n <= nMax; n++ {
+							h.statusRequest(a, r, lib.TLCfg{Snr: -1, Tsbd: -1, Mode: "number"}, codes, n, 4)
+						}
+					}
+				}
 			}
 		}
 	}
@@ -1650,6 +1806,10 @@ func run(c *lib.Ctx) error {
 	if on("f") {
 		h.familySweep(withAudio)
 	}
+	if on("w") {
+		h.wrapSweep(withAudio)
+		h.listSweep(withAudio)
+	}
 	t1 := time.Now()
 	if on("c") {
 		h.calcSweep()
@@ -1672,7 +1832,7 @@ func run(c *lib.Ctx) error {
 	c.Res.Evaluations = h.nEval
 	c.Res.ModelCases = len(h.terms)
 	c.Res.DistinctNontrivial = len(h.dist)
-	c.Res.Rule = "statuscode_ combined with every other timing/addressing family (ato below/equal/above a segment and inf, tsbd, chunked mode, periods, start, snr, $Time$) and every track kind (video, audio, stored text, thumbnails, generated subtitles); statuscode_: bundled assets (1, 2, 4, ... segments; 2 s, 6 s, 8 s, alternating, 2.002 s) x cycle {3,5,8,30,31} x every rsq up to the number of segments per cycle x every segment over >= 6 cycles; representation filters (*, video id, audio id, no match), video and audio, Number / Timeline-Number / Timeline-Time, two and three simultaneous patterns; start_30, snr_7, start_1000/snr_3 (findings stream); calcStatusCode on random synthetic tables (1-6 segments, irregular durations, 5 timescales). traffic_: every state (up, down, slow, hang) crossed with every delivery mode (chunked low latency video/audio, audio, encrypted, generated subtitles, stored text, thumbnails, $Time$, ato/tsbd); every pattern of 1-4 intervals over {u,d} with durations 1-3 at every second of 3 cycles, three patterns per URL selected by bu<i>; s/h patterns recognised by their delay; all patterns over {u,d,s,h} and random strings through CreateLossItvls/StateAt; BaseURL elements of every Period of the MPD under every MPD shape (1..3 Periods, continuous, three addressing modes, MPD variants with subtitles/thumbnails/endNumber, generated subtitles, ato, start/snr) and a segment behind each BaseURL. distinct = distinct (configuration, request) pairs for which the oracle confirmed the prescribed answer"
+	c.Res.Rule = "statuscode_ on fractional-second loops (29.97 Hz WAVE asset, synthetic NTSC tables) at segment numbers after 125-875 loop wraps with cycles dividing 1001 s; pattern lists whose entries differ in one field, in both orders, and exact duplicates; statuscode_ combined with every other timing/addressing family (ato below/equal/above a segment and inf, tsbd, chunked mode, periods, start, snr, $Time$) and every track kind (video, audio, stored text, thumbnails, generated subtitles); statuscode_: bundled assets (1, 2, 4, ... segments; 2 s, 6 s, 8 s, alternating, 2.002 s) x cycle {3,5,8,30,31} x every rsq up to the number of segments per cycle x every segment over >= 6 cycles; representation filters (*, video id, audio id, no match), video and audio, Number / Timeline-Number / Timeline-Time, two and three simultaneous patterns; start_30, snr_7, start_1000/snr_3 (findings stream); calcStatusCode on random synthetic tables (1-6 segments, irregular durations, 5 timescales). traffic_: every state (up, down, slow, hang) crossed with every delivery mode (chunked low latency video/audio, audio, encrypted, generated subtitles, stored text, thumbnails, $Time$, ato/tsbd); every pattern of 1-4 intervals over {u,d} with durations 1-3 at every second of 3 cycles, three patterns per URL selected by bu<i>; s/h patterns recognised by their delay; all patterns over {u,d,s,h} and random strings through CreateLossItvls/StateAt; BaseURL elements of every Period of the MPD under every MPD shape (1..3 Periods, continuous, three addressing modes, MPD variants with subtitles/thumbnails/endNumber, generated subtitles, ato, start/snr) and a segment behind each BaseURL. distinct = distinct (configuration, request) pairs for which the oracle confirmed the prescribed answer"
 	keys := make([]string, 0, len(c.Res.Inputs))
 	for k := range c.Res.Inputs {
 		keys = append(keys, k)
